@@ -173,7 +173,7 @@ Qed.
 Definition f14_state : clp_state :=
   mkClp (mkBank [(1, [(1, 700)]); (10, [(0, 9000000000000000000000); (1, 9000000000000000000000)])] [])
         [(1, mkPool 0 700 1000 0 0 0 0 0 0)]
-        [(1, [(11, mkLp 1000 [] 2)])] [] 0 [] [] 5 (mkCP 0 3000000000000000 [] 0 0 [(0, 7); (1, 7)] [] 0 false).
+        [(1, [(11, mkLp 1000 [] 2)])] [] 0 [] [] 5 (mkCP 0 3000000000000000 [] 0 0 [(0, 7); (1, 7)] [] 0 false [] 0).
 Lemma add_to_one_sided_pool_refuted :
   exists s', add_liquidity f14_state 10 1 5 5 = Ok s' /\
              pool_units_of s' 1 = 5 /\ lp_units_of s' 1 10 + lp_units_of s' 1 11 = 1005.
